@@ -718,8 +718,8 @@ def write_namespace_layout(rng, root: Path, pkg: str, k=None):
 
 
 def layout_cwds(rng, layout, everything: bool):
-    """directories (relative to the scratch root, or absolute) to dump from: above everything first, then a choice of: above one
-    search path only, a namespace directory itself, inside one, an unrelated directory, the file system root"""
+    """directories (relative to the scratch root, or absolute) to dump from: above everything first, then a choice (2 quick, 4
+    thorough) of: above one search path only, a namespace directory itself, inside one, an unrelated directory, the file system root"""
     out = ["."]
     more = ["elsewhere", "/"]
     more += [sp for sp in layout["search_paths"] if sp != "."]
@@ -727,9 +727,7 @@ def layout_cwds(rng, layout, everything: bool):
     if layout["variant"] == "regular" or layout["stubs"]:
         more.append(layout["package"])
     more = sorted(set(more))
-    if everything:
-        return out + more
-    return out + rng.sample(more, min(len(more), 2))
+    return out + rng.sample(more, min(len(more), 4 if everything else 2))
 
 
 # ---------------------------------------------------------------------------------------------- loading and dumping
@@ -1332,16 +1330,25 @@ def check_mutants(st: State, n):
 # --- corpus: the witnesses of the repaired findings F1..F5 must keep passing; witness of the known finding F6
 
 def replay_corpus(st: State, root: Path):
+    """minimised past disagreements, replayed first. A case: files ({pkg} is replaced by a fresh package name), mode, parser,
+    optionally search_paths (default: the scratch root), cwds to dump from (default: above everything), resolve_aliases"""
     ctx = st.ctx
     d = Path(__file__).resolve().parents[2] / "corpus" / "C09"
-    for i, f in enumerate(sorted(d.glob("*.json"))):
-        c = json.loads(f.read_text())
-        pkg = f"c09c{i}_{os.getpid()}"
-        files = {rel.format(pkg=pkg): text for rel, text in c["files"].items()}
-        write_files(root, files)
-        layout = {"package": pkg, "variant": "corpus", "search_paths": ["."], "files": files, "stubs": False, "namespace_dirs": []}
-        ctx.observe("corpus", f.name)
-        run_layout(st, root, layout, [(c["mode"], c.get("parser"), False)], ["."], extra_label={"corpus": f.name})
+    sys.path.insert(0, str(root))
+    try:
+        for i, f in enumerate(sorted(d.glob("*.json"))):
+            c = json.loads(f.read_text())
+            pkg = f"c09c{i}_{os.getpid()}"
+            files = {rel.format(pkg=pkg): text.replace("{pkg}", pkg) if c.get("substitute_in_text") else text for rel, text in c["files"].items()}
+            write_files(root, files)
+            sps = [sp.format(pkg=pkg) for sp in c.get("search_paths", ["."])]
+            layout = {"package": pkg, "variant": "corpus", "search_paths": sps, "files": files, "stubs": bool(c.get("find_stubs_package")),
+                      "namespace_dirs": [nd.format(pkg=pkg) for nd in c.get("namespace_dirs", [])]}
+            ctx.observe("corpus", f.name)
+            run_layout(st, root, layout, [(c["mode"], c.get("parser"), bool(c.get("resolve_aliases")))],
+                       [w.format(pkg=pkg) for w in c.get("cwds", ["."])], extra_label={"corpus": f.name})
+    finally:
+        sys.path.remove(str(root))
 
 
 def witness_layouts(root: Path):
@@ -1661,8 +1668,8 @@ def explore(ctx):
         ctx.tie_failure("correspondence", "extracted load_tables_ok differs from the proved value (true)", {})
     check_paths(st)
     replay_corpus(st, root)
-    run_packages(st, root, ctx.budget(6, 80))
-    run_passthrough(st, root, ctx.budget(6, 60))
+    run_packages(st, root, ctx.budget(6, 48))
+    run_passthrough(st, root, ctx.budget(6, 40))
     ctx.notes.append(f"packages done at {ctx.elapsed():.1f}s")
     cwd = os.getcwd()
     os.chdir(root)
